@@ -162,16 +162,17 @@ Qed.
 
 (* ---------- predict on an example-wise model (any heads, any number of args) ---------- *)
 
-Definition expected (k : okind) (hs : list head) (X : list row) (args : list arg) : yval :=
+(* [fl]: the training flags of all sub-modules during the forward calls (all false, see below) *)
+Definition expected (k : okind) (hs : list head) (fl : list bool) (X : list row) (args : list arg) : yval :=
   match k with
-  | KTensor => YT (apply_head (nth 0 hs dhead) false false (rows X args))
-  | _ => YM (map (fun h => apply_head h false false (rows X args)) hs)
+  | KTensor => YT (apply_head (nth 0 hs dhead) fl false (rows X args))
+  | _ => YM (map (fun h => apply_head h fl false (rows X args)) hs)
   end.
 
 Definition batch_of (b : Z) (X : list row) : nat := Z.to_nat (Z.min b (Z.of_nat (length X))).
 
-Definition expected_trace (b : Z) (X : list row) (args : list arg) : list callrec :=
-  map (fun s => CR false false (window s (batch_of b X) X) (map (window s (batch_of b X)) args))
+Definition expected_trace (fl : list bool) (b : Z) (X : list row) (args : list arg) : list callrec :=
+  map (fun s => CR fl false (window s (batch_of b X) X) (map (window s (batch_of b X)) args))
       (starts (length X) (batch_of b X)).
 
 Lemma aligned_forallb (X : list row) (args : list arg) :
@@ -190,16 +191,17 @@ Proof. unfold apply_head. symmetry. apply concat_map. Qed.
 Theorem predict_examplewise (k : okind) (hs : list head) (s0 : mstate) (b : Z)
         (X : list row) (args : list arg) :
   1 <= b -> X <> [] -> Forall (fun a => length a = length X) args ->
-  predict_model (g_ex k hs) s0 b X args = (Ok (expected k hs X args), expected_trace b X args).
+  predict_model (g_ex k hs) s0 b X args
+  = (Ok (expected k hs (all_eval (training s0)) X args), expected_trace (all_eval (training s0)) b X args).
 Proof.
-  intros Hb HX Hal.
+  intros Hb HX Hal. set (fl := all_eval (training s0)).
   assert (Hn : (1 <= length X)%nat) by (destruct X; [congruence | cbn; lia]).
   unfold predict_model.
   apply aligned_forallb in Hal. rewrite Hal. cbn [negb].
   destruct (Z.leb_spec (Z.min b (Z.of_nat (length X))) 0) as [Hle|Hgt]; [lia|].
   fold (batch_of b X). set (bb := batch_of b X).
   assert (Hbb : (1 <= bb)%nat) by (unfold bb, batch_of; lia).
-  unfold forward_all. cbn [set_eval enter_no_grad training grad].
+  unfold forward_all. cbn [set_eval enter_no_grad training grad]. fold fl.
   rewrite !map_map. cbn [fst snd].
   f_equal.
   pose proof (starts_nonempty (length X) bb Hn) as Hne.
@@ -208,20 +210,20 @@ Proof.
   unfold g_ex, expected. destruct k.
   - (* tensor *)
     erewrite map_ext by (intros s; rewrite rows_window; reflexivity).
-    rewrite (cat_YT (fun s => apply_head (nth 0 hs dhead) false false (window s bb R))) by exact Hne.
-    rewrite <- (map_map (fun s => window s bb R) (apply_head (nth 0 hs dhead) false false)).
+    rewrite (cat_YT (fun s => apply_head (nth 0 hs dhead) fl false (window s bb R))) by exact Hne.
+    rewrite <- (map_map (fun s => window s bb R) (apply_head (nth 0 hs dhead) fl false)).
     rewrite apply_head_concat, windows_concat by auto. reflexivity.
   - erewrite map_ext by (intros s; rewrite rows_window; reflexivity).
-    rewrite (cat_YM (fun s => map (fun h => apply_head h false false (window s bb R)) hs)) by exact Hne.
-    rewrite (zipcat_heads (fun h s => apply_head h false false (window s bb R))) by exact Hne.
+    rewrite (cat_YM (fun s => map (fun h => apply_head h fl false (window s bb R)) hs)) by exact Hne.
+    rewrite (zipcat_heads (fun h s => apply_head h fl false (window s bb R))) by exact Hne.
     do 2 f_equal. apply map_ext. intros h.
-    rewrite <- (map_map (fun s => window s bb R) (apply_head h false false)).
+    rewrite <- (map_map (fun s => window s bb R) (apply_head h fl false)).
     rewrite apply_head_concat, windows_concat by auto. reflexivity.
   - erewrite map_ext by (intros s; rewrite rows_window; reflexivity).
-    rewrite (cat_YM (fun s => map (fun h => apply_head h false false (window s bb R)) hs)) by exact Hne.
-    rewrite (zipcat_heads (fun h s => apply_head h false false (window s bb R))) by exact Hne.
+    rewrite (cat_YM (fun s => map (fun h => apply_head h fl false (window s bb R)) hs)) by exact Hne.
+    rewrite (zipcat_heads (fun h s => apply_head h fl false (window s bb R))) by exact Hne.
     do 2 f_equal. apply map_ext. intros h.
-    rewrite <- (map_map (fun s => window s bb R) (apply_head h false false)).
+    rewrite <- (map_map (fun s => window s bb R) (apply_head h fl false)).
     rewrite apply_head_concat, windows_concat by auto. reflexivity.
 Qed.
 
@@ -233,10 +235,19 @@ Proof. intros H. unfold predict_model. rewrite H. reflexivity. Qed.
 
 (* every call of the trace: evaluation mode, gradients off, the same window of X and of every
    arg; the windows partition 0..n-1 in order *)
-Theorem trace_facts (b : Z) (X : list row) (args : list arg) :
+Lemma all_eval_false fl : Forall (fun t => t = false) (all_eval fl).
+Proof. unfold all_eval. apply Forall_forall. intros t H. apply in_map_iff in H as (? & <- & _). reflexivity. Qed.
+
+Lemma all_eval_no_training fl : existsb (fun t => t) (all_eval fl) = false.
+Proof. unfold all_eval. induction fl; cbn; auto. Qed.
+
+Lemma all_eval_forallb fl : forallb negb (all_eval fl) = true.
+Proof. unfold all_eval. induction fl; cbn; auto. Qed.
+
+Theorem trace_facts (fl0 : list bool) (b : Z) (X : list row) (args : list arg) :
   1 <= b -> X <> [] -> Forall (fun a => length a = length X) args ->
-  let t := expected_trace b X args in
-  Forall (fun r => cr_training r = false /\ cr_grad r = false /\
+  let t := expected_trace (all_eval fl0) b X args in
+  Forall (fun r => Forall (fun t => t = false) (cr_training r) /\ cr_grad r = false /\
                    exists s, (s < length X)%nat /\
                              cr_X r = window s (batch_of b X) X /\
                              cr_args r = map (window s (batch_of b X)) args) t /\
@@ -250,7 +261,7 @@ Proof.
   assert (Hbb : (1 <= batch_of b X)%nat) by (unfold batch_of; lia).
   unfold t, expected_trace. repeat split.
   - apply Forall_forall. intros r Hr. apply in_map_iff in Hr as (s & <- & Hs).
-    cbn. repeat split. exists s. repeat split.
+    cbn. repeat split; [apply all_eval_false|]. exists s. repeat split.
     pose proof (range_from_lt (length X) 0 (length X) (batch_of b X)) as F.
     rewrite Forall_forall in F. apply F. exact Hs.
   - rewrite map_map. cbn [cr_X]. apply windows_concat; auto.
@@ -273,19 +284,19 @@ Proof.
   rewrite seq_nth by exact H. reflexivity.
 Qed.
 
-Lemma head_ok_enc m X args :
-  head_ok m X args (apply_head (enc_head m) false false (rows X args)) = true.
+Lemma head_ok_enc m fl0 X args :
+  head_ok m X args (apply_head (enc_head m) (all_eval fl0) false (rows X args)) = true.
 Proof.
   unfold head_ok, apply_head. rewrite map_length, rows_length, Nat.eqb_refl. cbn [andb].
   apply forallb_seq. intros i Hi.
   rewrite nth_map_in with (d' := (([] : row), ([] : list row))) by (rewrite rows_length; exact Hi).
-  rewrite nth_rows by exact Hi. cbn [fst snd enc_head]. apply row_eqb_refl.
+  rewrite nth_rows by exact Hi. cbn [fst snd]. unfold enc_head. rewrite all_eval_no_training. apply row_eqb_refl.
 Qed.
 
-Lemma flags_expected b X args : flags_ok (expected_trace b X args) = true.
+Lemma flags_expected fl0 b X args : flags_ok (expected_trace (all_eval fl0) b X args) = true.
 Proof.
   unfold flags_ok, expected_trace. apply forallb_forall. intros r Hr.
-  apply in_map_iff in Hr as (s & <- & _). reflexivity.
+  apply in_map_iff in Hr as (s & <- & _). cbn [cr_training cr_grad]. rewrite all_eval_forallb. reflexivity.
 Qed.
 
 Lemma scope_facts c : in_scope c = true -> 1 <= c_b c /\ c_X c <> [].
@@ -295,8 +306,8 @@ Proof.
 Qed.
 
 Lemma model_in_scope c : in_scope c = true -> args_aligned c = true ->
-  model c = (Ok (expected (c_kind c) (enc_heads (nheads c)) (c_X c) (c_args c)),
-             expected_trace (c_b c) (c_X c) (c_args c)).
+  model c = (Ok (expected (c_kind c) (enc_heads (nheads c)) (all_eval (training (c_state c))) (c_X c) (c_args c)),
+             expected_trace (all_eval (training (c_state c))) (c_b c) (c_X c) (c_args c)).
 Proof.
   intros Hs Ha. apply scope_facts in Hs as [Hb HX]. unfold model.
   apply predict_examplewise; auto. apply aligned_forallb. exact Ha.
@@ -336,7 +347,7 @@ Proof.
   pose proof (scope_facts c Hs) as [Hb HX].
   assert (Hal : Forall (fun a => length a = length (c_X c)) (c_args c))
     by (apply aligned_forallb; exact Ha).
-  destruct (trace_facts (c_b c) (c_X c) (c_args c) Hb HX Hal) as (F1 & _ & _ & F4).
+  destruct (trace_facts (training (c_state c)) (c_b c) (c_X c) (c_args c) Hb HX Hal) as (F1 & _ & _ & F4).
   assert (Hn : (1 <= length (c_X c))%nat) by (destruct (c_X c); [congruence | cbn; lia]).
   unfold trace_ok. apply andb_true_iff. split.
   - apply (list_eqb_spec pair_eqb pair_eqb_spec). exact F4.
